@@ -134,6 +134,15 @@ CLAIMED = {
         "every operand must still equal its snapshot.",
         "Holds on the explored region only. sort_by is checked as an ordered permutation; pandas round trips only for column types pandas can carry.",
         "Hypothesis-generated operation programs interpreted against a list-of-tuples reference model"),
+    "C20": (
+        "A registry of 62 public calls (text/number conversion, interval arithmetic, sequence functions, encoding changes, genomic-data "
+        "methods, table methods) each run on Hypothesis-generated arguments passed both as fresh arrays and as views into a larger buffer, "
+        "plus field access in a generated order on lazily read chunks of 12 text-format variants (and on slices of them, with a write of the "
+        "slice in the middle). Oracle: a deep snapshot of every argument and of the buffer behind a view is unchanged by the call, a second "
+        "call gives an equal result, every field of a chunk equals the value a fresh parse gives regardless of earlier accesses, and the "
+        "bytes written before any access equal those written after all accesses.",
+        "Holds on the explored region only. The registry is a fixed list of calls; a public function outside it is not covered.",
+        "Hypothesis generation per registered call, metamorphic oracle (argument snapshot before = after, repeated call equal, access-order independence)"),
 }
 
 PENDING_REASON = "check not built yet in this commit (work in progress, see DESIGN.md section 9); the technique applies"
